@@ -84,3 +84,35 @@ example : checkGlobalExprTypes okModule = [] ∧ (globalFold okModule).1.getD 2 
 example : (checkGlobalExprTypes badModule).length = 2 := by decide
 
 end Naga.Props.GlobalInit
+
+namespace Naga.Props.GlobalInit
+open Naga Naga.IR Naga.IRTyping
+
+/-- One step of the typing fold records exactly one shape. -/
+theorem globalStep_size (m : Module) (acc : Array Sh × List String) (ie : Nat × Expr) :
+    (globalStep m acc ie).1.size = acc.1.size + 1 := by
+  unfold globalStep
+  simp
+
+theorem foldl_globalStep_size (m : Module) (l : List (Nat × Expr)) (acc : Array Sh × List String) :
+    (l.foldl (globalStep m) acc).1.size = acc.1.size + l.length := by
+  induction l generalizing acc with
+  | nil => simp
+  | cons x xs ih => simp only [List.foldl_cons, ih, globalStep_size, List.length_cons]; omega
+
+/-- The typing fold gives every global expression a shape: the table `init_has_var_type` reads is total on the arena
+(no initializer handle inside the arena falls back to the `unknown` default by being out of range). -/
+theorem globalFold_size (m : Module) : (globalFold m).1.size = m.gexprs.size := by
+  unfold globalFold
+  rw [foldl_globalStep_size]
+  simp [List.length_zip]
+
+/-- Diagnostics only accumulate: an earlier constructor's diagnostic is never dropped by a later step. -/
+theorem globalStep_errs_prefix (m : Module) (acc : Array Sh × List String) (ie : Nat × Expr) :
+    ∃ more, (globalStep m acc ie).2 = acc.2 ++ more := by
+  unfold globalStep
+  cases ie.2 with
+  | compose t hs => exact ⟨componentErrs m acc.1 ie.1 t hs, rfl⟩
+  | _ => exact ⟨[], by simp⟩
+
+end Naga.Props.GlobalInit
